@@ -5,6 +5,7 @@ import (
 	"fmt"
 	"os"
 	"path/filepath"
+	"strings"
 	"time"
 
 	"verif/harness/tlc"
@@ -27,6 +28,7 @@ type Evidence struct {
 	Level       string
 	Runs        []TLCRun
 	States      int64
+	ModelStates int64 // distinct states of model-checking and generation runs (not trace validation)
 	Trans       int64
 	Traces      int // traces recorded from the real code and validated
 	StdTraces   int // traces recorded from the standard library and validated (R3)
@@ -53,6 +55,9 @@ func (e *Evidence) addTLC(r tlc.Run, res *tlc.Result) {
 		Diameter: res.Diameter, Wall: res.Wall.Seconds(), Violated: res.Violated})
 	e.States += res.Distinct
 	e.Trans += res.Generated
+	if !strings.HasPrefix(r.Cfg, "TV_") {
+		e.ModelStates += res.Distinct
+	}
 }
 
 func (e *Evidence) nontrivial(key string) {
@@ -83,7 +88,9 @@ func (c *Ctx) writeEvidence() error {
 		"exhaustive":                      e.Exhaustive,
 		"tlc_runs":                        e.Runs,
 		"acceleration_levels":             e.Levels,
-		"known_findings_reported":         e.Known,
+		"known_findings_reported":         append([]string{}, e.Known...),
+		"model_states":                    e.ModelStates,
+		"trace_validation_states":         e.States - e.ModelStates,
 	}
 	if e.Explanation != "" {
 		cov["explanation"] = e.Explanation
@@ -111,4 +118,12 @@ func (c *Ctx) writeEvidence() error {
 	dir := filepath.Join(c.Root, "evidence")
 	os.MkdirAll(dir, 0o755)
 	return os.WriteFile(filepath.Join(dir, fmt.Sprintf("%s.json", c.Prop)), append(b, '\n'), 0o644)
+}
+
+// spread picks up to four elements spread over a slice (samples for the evidence file).
+func spread[T any](xs []T) []T {
+	if len(xs) <= 4 {
+		return xs
+	}
+	return []T{xs[len(xs)/7], xs[len(xs)/3], xs[2*len(xs)/3], xs[len(xs)-1-len(xs)/9]}
 }
